@@ -12,6 +12,9 @@ def gen(chk, mdl):
     srcs += ["s://h/a?q", "s://h/a#f", "s://h?q", "s://u@h/a", "s://h:8/a", "s://g/a", "t://h/a", "s://[::1]/a", "s://1.2.3.4/a", "s://[v1.x]/a", "//h/a", "a", "", "s:a?q#f"]
     bases = [t for t in uris.valid_texts(mdl, uris.small_texts(2 if q else 3, alphabet=A, auths=(None, "//h"), schemes=("s",), queries=(None, "q")))]
     bases += ["s://u@h/a", "s://h:8/a", "s://[::1]/x", "s://1.2.3.4/x", "s://[v1.x]/x", "//h/a", "a/b", ""]
+    # dot segments in source and base (the property quantifies over all absolute URIs, not only normalised ones)
+    dotted = uris.valid_texts(mdl, uris.small_texts(3, alphabet=["a", ".", "..", "b"], auths=("//h",), schemes=("s",), queries=(None,)))
+    srcs += dotted; bases += dotted
     return sorted(set(srcs)), sorted(set(bases))
 
 def norm_text(t):
